@@ -279,6 +279,9 @@ func cmdCheck(args []string) {
 		for _, spec := range specs {
 			nrun++
 			cfg := defaultCfg(spec, *tier)
+			if spec.Witness {
+				cfg.MaxPaths = 64 // a reachability twin only has to reach its assert(false)
+			}
 			res := runHarnessSpec(ld, spec, cfg)
 			printResult(res)
 			code := judge(prop, s, spec, res, known, ev)
